@@ -13,7 +13,7 @@ from vf.models import dimlang as dl
 from vf.models.dimlang import Token
 
 NAMES = ["a", "b", "c", "d", "n", "foo", "batch", "größe"]  # identifiers are not only ASCII
-VNAMES = ["v", "w", "β"]
+VNAMES = ["v", "w", "β", "a"]  # "a" is also a plain axis name: "*a" and "a" are different things
 DOCS = ["rows", "cols", "doc", "x1"]
 SIZES = [0, 1, 2, 3, 4, 5, 7]
 # values of the int arguments usable in {..} holes.  'n' and 'a' are ALSO axis names of the pool on purpose: an axis
